@@ -10,8 +10,9 @@ LEVEL_NOTE_COMMON = ("Trusted: g++ 12, its sanitizer runtimes, libquadmath; the 
 
 # id -> (technique, level text, design section, extra note)
 PDE_TECH = ("runtime monitor with independent oracle: real evaluators driven with thousands of admissible parameter vectors x points in one process per shard "
-            "(fresh draws, zeroed families / special values, incremental changes of 1-3 parameters, masa_init_param defaults, partial defaults, magnitudes stretched over decades; "
-            "points incl. axes and 10^-7..10^-1 from an axis; evaluators in random order; several handles), each value compared with the governing operator applied by "
+            "(fresh draws, zeroed families / integer, half-integer, equal and in-band-code values, incremental changes of 1-3 parameters, masa_init_param defaults, partial defaults, pair shifts, "
+            "write storms of 2^8/2^16/2^17 redundant sets, magnitudes stretched over decades; points on axes, 10^-7..10^-1 from an axis, on nodal sets, tied to L, integers, the 5x/50x box, variants of the "
+            "previous point; evaluators in random order, some from a second thread; errno poisoned; several handles; re-run with every environment variable the library asks for), the floating-point environment checked after every call, each value compared with the governing operator applied by "
             "2nd-order Taylor jets (quad precision + running error bound) to the documented field; roundoff bound 8 u e (generic inputs) / 256 u e (structured inputs)")
 CHECKS = {
     "C01": (PDE_TECH, "Exploration: 12 heat solutions x 2 precisions; source == rho cp(T) T_t - div(k(T) grad T) of the documented T by jets; exact_t == T; tolerance 2^20 u e.", "2/C01", ""),
@@ -29,11 +30,11 @@ CHECKS = {
     "C20": ("runtime monitor, reference-free: two handles in one process under four (re-)initialisation/selection histories, masa_get_name must answer for the solution each handle was given, shared parameters copied, specialising parameters zeroed and verified, sources of the two solutions compared (oracle supplies only the roundoff scale)",
             "Exploration: 19 reductions (3D->2D, NS->Euler, transient->steady, unsteady->steady heat, variable->constant properties) x 2 precisions x random parameters/points.", "2/C20", ""),
     "C10": ("runtime monitor over recorded histories: evaluator-call log keyed by (handle, parameter version, evaluator, arguments) checked for bit-identical repeats; fresh twin handle must reproduce logged bits; full parameter snapshot compared with the sequential model after every evaluator call",
-            "Exploration: long random histories (both error-handling builds, both precisions) over every catalogue entry, weighted to the stateful ones (wall-bounded FANS-SA, Sod, cp_normal); half of all evaluator calls are repeats after arbitrary other operations.", "2/C10", ""),
+            "Exploration: long random histories (both error-handling builds, both precisions) over every catalogue entry, weighted to the stateful ones (wall-bounded FANS-SA, Sod, cp_normal); half of all evaluator calls are repeats after arbitrary other operations; re-entrant callbacks, calls from a second thread, 2^18 (thorough 2^24) identical calls in a row, vector lengths up to 100000 with fresh-twin reproduction, floating-point environment compared after every call.", "2/C10", ""),
     "C11": ("runtime monitor: sequential reference map per handle compared step by step (get == model bitwise; whole snapshot after every mutator; unknown names; init_param/purge/sanity/display/vectors) + systematic sweep over every name of every solution + reference sums for the vector-parameter solution (radiation evaluators must use every entry of the vectors last set, lengths 1..64)",
             "Exploration: random op sequences on 35 solutions x 2 precisions x 2 builds, plus the exhaustive-over-names sweep (803 names per precision, incl. all 205 power-law parameters).", "2/C11", ""),
     "C12": ("runtime monitor: bounded-exhaustive enumeration of all op sequences (length <= 4 quick / <= 6 thorough) over a 12-symbol alphabet, each in a forked child from the empty registry, plus long random histories over 6 handles x 2 precisions; every step compared with the model (listing, name, dimension, selection hook, parameter isolation)",
-            "Exploration with an exhaustive bounded part: 7,540 (quick) / 1.09 M (thorough) sequences enumerated completely; random part covers re-initialisation, two handles of one type, cross-precision independence.", "2/C12", ""),
+            "Exploration with an exhaustive bounded part: 7,540 (quick) / 1.09 M (thorough) sequences enumerated completely; random part covers re-initialisation, two handles of one type, cross-precision independence, C and C++ entry points interleaved, hostile handle strings (empty, 68 characters, blanks, printf formats, hash-colliding pairs), several hundred handles in one registry.", "2/C12", ""),
     "C14": ("runtime monitor, complete enumeration: every name masa_printid lists in both precisions initialised under three handle policies (one re-used handle, three handles round-robin, fresh handle per entry) and checked against spec/catalogue.txt (name echo, sanity, init_param, dimension, every documented evaluator finite and non-sentinel at interior points)",
             "Exhaustive over the finite catalogue of the build under test (37 entries x 2 precisions x 2 builds).", "2/C14", "An entry unknown to the spec makes the run inconclusive, not green."),
     "C15": ("runtime monitor, complete enumeration: every (solution, overload, precision) triple outside the documented capability set called at 4 random argument tuples; sentinel bits, error line, parameter snapshot, registry and process survival checked",
